@@ -314,10 +314,11 @@ int32_t jls_twr_close(struct jls_twr_s * self) {
         JLS_LOGI("jls_bkt_finalize done");
         // jls_wr_flush(self->wr);  // takes too long & blocks UI
         // JLS_LOGI("jls_wr_flush done");
-        jls_wr_close(self->wr);
+        int32_t rc = jls_wr_close(self->wr);
         self->wr = NULL;
         free(self);
         JLS_LOGI("jls_wr_close done");
+        return rc;  // e.g. the tail of a signal could not be written
     }
     return 0;
 }
